@@ -1,0 +1,23 @@
+//go:build verif
+
+package raw
+
+// Contracts for govc (see /verif/DESIGN.md §5 C06, C10). Comment-only; compiled
+// only under the build tag "verif".
+//
+// The raw decoder reads the whole stream (so that a hasher teed onto it has seen every byte of the
+// block when the decode succeeds) and hands exactly those bytes to the assembler; the only
+// exception is a reader that exposes its remaining bytes directly (a *bytes.Buffer), which is not
+// advanced.
+//@ func Decode(am, r) (err)
+//@   requires am != nil && r != nil
+//@   before ReadAll assert[C06] carg0 == r
+//@   after ReadAll let drained = result0
+//@   before AssignBytes assert[C06] defined(drained) ==> carg1 == drained
+//@   ensures[C06] err == nil && defined(drained) && r.teesink == nil ==> r.pos == io.blen(r.data)
+//@   ensures[C06] err == nil && defined(drained) && r.teesink != nil ==> r.teesrc.pos == io.blen(r.teesrc.data)
+
+//@ func Encode(node, w) (err)
+//@   requires node != nil && w != nil
+//@   after AsBytes let content = result0
+//@   before Write assert[C06] carg1 == content
